@@ -532,6 +532,9 @@ def replay_identity(cfg, hist):
 def bfs_identity(cfg, depth, max_out, seed=0):
     res = new_result()
     ticks = sorted({1, cfg["recovery"] - 1 or 1, cfg["recovery"], cfg["window"]})
+    if cfg.get("frac_tick"):
+        # 0.4 ms short of the recovery timeout: unambiguously still open
+        ticks.append(cfg["recovery"] - 0.0032)
     seen = {}
     frontier = collections.deque([()])
     trans = 0
